@@ -35,13 +35,23 @@ func ZZ_L1() {
 	allowPills := zzrt.Param("pills")
 
 	e, sink := zzBareEngine()
-	mon := &zzMon{maxCrashes: F, prop: prop, crashInit: zzrt.Param("lifecrash") == 1}
+	mon := &zzMon{maxCrashes: F, prop: prop, crashInit: zzrt.Param("lifecrash") == 1, crashStop: zzrt.Param("lifecrash") == 1 && prop == 7}
+	// options are built the way Engine.Spawn builds them: DefaultOpts, kind, then the public With* option functions
 	opts := DefaultOpts(zzProducer(mon))
-	opts.Kind, opts.ID = "k", "i"
-	opts.MaxRestarts = int32(zzrt.Choose(B + 1))
-	opts.RestartDelay = 0
+	opts.Kind = "k"
+	maxRestarts := zzrt.Choose(B + 1) // the budget the user asked for; the oracles below are stated against it
+	optFns := []OptFunc{WithID("i"), WithMaxRestarts(maxRestarts), WithRestartDelay(0), WithInboxSize(4)}
 	if MW > 0 {
-		opts.Middleware = zzChain(zzrt.Choose(MW+1), mon)
+		mws := zzChain(zzrt.Choose(MW+1), mon)
+		if len(mws) >= 2 {
+			// a chain may be given in several options: they accumulate in order
+			optFns = append(optFns, WithMiddleware(mws[:1]...), WithMiddleware(mws[1:]...))
+		} else if len(mws) == 1 {
+			optFns = append(optFns, WithMiddleware(mws...))
+		}
+	}
+	for _, f := range optFns {
+		f(&opts)
 	}
 	p := newProcess(e, opts)
 	fake := &zzFakeInbox{}
@@ -162,7 +172,7 @@ func ZZ_L1() {
 		guard(func() { fake.deliver() })
 	}
 
-	budgetHit := mon.crashes > int(opts.MaxRestarts)
+	budgetHit := mon.crashes > maxRestarts
 	// scenario: a user message sent after a graceful Poison call panicked, i.e. the
 	// panic happened while the process drained the batch behind the pill
 	drainCrash := false
@@ -198,13 +208,28 @@ func ZZ_L1() {
 			return
 		}
 		n, _ := sink.countRestarted()
-		zzrt.Assert(n <= int(opts.MaxRestarts), "C06:restarts-bounded-by-MaxRestarts")
+		zzrt.Assert(n <= maxRestarts, "C06:restarts-bounded-by-MaxRestarts")
 		if budgetHit {
 			zzrt.Assert(sink.count(3) == 1, "C06:one-MaxRestartsExceededEvent")
 			zzrt.Assert(!alive, "C06:unregistered-after-max-restarts")
 			before := sink.count(4)
 			e.Send(p.pid, zzUser{Seq: 999})
 			zzrt.Assert(sink.count(4) == before+1, "C06:later-send-dead-letters")
+			// stopped cleanly: the terminated actor handles nothing after its final Stopped (the harness keeps
+			// offering queued batches for as long as the real code keeps the inbox open)
+			sawStop := false
+			for _, r := range mon.recs {
+				if r.inc != mon.incs {
+					continue
+				}
+				if sawStop {
+					zzrt.Fail("C06:terminated-actor-keeps-processing")
+				}
+				if r.kind == zzKStopped {
+					sawStop = true
+				}
+			}
+			zzrt.Assert(sawStop, "C06:terminated-actor-not-told-Stopped")
 		} else {
 			zzrt.Assert(sink.count(3) == 0, "C06:no-MaxRestartsExceededEvent-within-budget")
 			if len(pills) == 0 {
@@ -212,7 +237,9 @@ func ZZ_L1() {
 			}
 		}
 	case 4:
-		zzrt.Assume(!budgetHit)
+		if budgetHit {
+			zzrt.Reach("lifecycle-with-budget-exhausted")
+		}
 		if escaped {
 			return
 		}
